@@ -78,7 +78,7 @@ Section C12.
     olookup id (w_objs w) = Some o -> wo_wrapped o = true ->
     target failfs_table m a = Some (m', a') -> kind_of failfs_table m' = KConsult fn flag k ->
     ff (w_hist w) fn (mk_flag flag a') = Some e ->
-    wstep base_step failfs_table ff comp_prog w (mkCall id m a bind) =
+    wrap_wstep base_step failfs_table ff comp_prog w (mkCall id m a bind) =
       (mkRes (ans_err e) [(fn, true)], push_hist fn w).
   Proof. exact (fun ff => @failfs_inject _ base_step failfs_table ff comp_prog). Qed.
 
@@ -88,7 +88,7 @@ Section C12.
     target failfs_table m a = Some (m', a') -> kind_of failfs_table m' = KConsult fn flag k ->
     (k = KFwd \/ k = KFwdWrap \/ k = KPure) ->
     ff (w_hist w) fn (mk_flag flag a') = None ->
-    wstep base_step failfs_table ff comp_prog w (mkCall id m a bind) =
+    wrap_wstep base_step failfs_table ff comp_prog w (mkCall id m a bind) =
     add_cons (fn, false)
       (forward base_step (match k with KFwdWrap => true | _ => false end) (push_hist fn w) o m' a' bind).
   Proof. exact (fun ff => @failfs_pass _ base_step failfs_table ff comp_prog). Qed.
@@ -113,7 +113,7 @@ Section C12.
     (forall h fn fl e, ff h fn fl = Some e -> opaque e = true) ->
     forall (w : world bstate) id o m cp a bind fn,
     olookup id (w_objs w) = Some o -> wo_wrapped o = true -> comp_of m = Some cp ->
-    let r := fst (wstep base_step failfs_table ff (Composites.comp_prog tmpname bad_pattern fuel) w (mkCall id m a bind)) in
+    let r := fst (wrap_wstep base_step failfs_table ff (Composites.comp_prog tmpname bad_pattern fuel) w (mkCall id m a bind)) in
     In (fn, true) (r_cons r) -> swallowed cp fn = false -> a_err (r_ans r) <> None.
   Proof.
     exact (fun ff tmpname bad_pattern fuel H =>
@@ -174,7 +174,7 @@ Proof. vm_compute. auto. Qed.
 
 (* the full-strength composite clause is false: ReadFile with its deferred Close failed returns nil *)
 Example C12_composite_refuted :
-  let r := fst (wstep toy_step failfs_table (fail_nth FnFileClose 0) toy_prog toy_world0
+  let r := fst (wrap_wstep toy_step failfs_table (fail_nth FnFileClose 0) toy_prog toy_world0
                       (mkCall 0 (MV V_ReadFile) [AS [47;97]%N] 9)) in
   existsb (fun c => fnvfs_eqb (fst c) FnFileClose && snd c) (r_cons r) = true /\ a_err (r_ans r) = None.
 Proof. vm_compute. auto. Qed.
